@@ -225,6 +225,14 @@ func freshScalar(t types.Type, prefix string, facts *[]*Term) Value {
 	if isBool(t) {
 		return FreshVar(prefix, SBool)
 	}
+	switch u := t.Underlying().(type) {
+	case *types.Basic:
+		if u.Kind() == types.String {
+			return freshString(prefix, facts)
+		}
+	case *types.Interface:
+		return freshIface(prefix, facts, false)
+	}
 	return OpaqueV{What: "fresh " + prefix + " " + t.String()}
 }
 
